@@ -13,24 +13,24 @@ CLAIMS = {
  "C09": ("Partial. Proved for all graphs: Kahn checker soundness (cyclic_core_sound) and acyclic => no set of mutually waiting packets (acyclic_no_deadlock). Acyclicity of networkx's tie-breaking on all meshes is not provable here; it is decided per explored mesh/tree on the real routes by the certified checker.", "Coq proof (CDG theory) + certified acyclicity checker on real routes", "DESIGN.md 5.9"),
  "C13": ("Theorem C13_checker_sound: all count parameters equal the sizes of the tables they size; enum widths cover their members; sam_idx_e numbers Sam entries.", "Coq-certified checker (extracted) on real output", "DESIGN.md 5.13"),
  "C14": ("Theorem C14_checker_sound: routers traversed = BFS hop distance - 1 in the emitted topology for every communicating pair.", "Coq-certified checker (extracted) on real output", "DESIGN.md 5.14"),
+ "C04": ("Theorem C04_checker_sound: frame equations on every connected router port and, for every ordered endpoint pair, the same outcome of the hardware's X-then-Y walk (turn ban, loop-back ban, fixed-width coordinate fields) on the emitted netlist as on the ideal grid the description denotes (requests by address-map destination, responses by requester identity).", "Coq-certified checker (extracted) on real output vs independent grid spec", "DESIGN.md 5.4"),
+ "C06": ("Theorem C06_checker_sound: every described link (mesh four-neighbour, tree parent-child, connection pairings incl. contiguous multi grouping) is emitted in both directions on every physical network on the named ports, every emitted link is described, counts agree, each interface attaches to one router.", "Coq-certified checker (extracted) on real output vs described_links spec", "DESIGN.md 5.6"),
+ "C08": ("Theorem C08_checker_sound: top-level ports, per-interface AXI bindings and role enables, enumeration-name/identity pairing and AXI configuration records equal what the description implies.", "Coq-certified comparison (extracted) on real output vs spec.axi_expect", "DESIGN.md 5.8"),
+ "C10": ("Theorem C10_no_output_on_failure over the step order regenerated from cli.py by an ast translator: no step that can raise follows the first write, so a rejected description leaves no package/top file; rejection itself is established by defect injection (22 classes x every site) through the real pipeline and CLI.", "fault enumeration via real CLI + Coq theorem over translated cli.py", "DESIGN.md 5.10"),
+ "C19": ("Theorem C19_holds over facts regenerated from util/gen_jobs.py and the real address maps of the six shipped mesh examples: every transfer of every traffic type / direction / tile / oracle draw / burst length <= MEM_SIZE lies inside one mapped rule; local and channel addresses start the named rules. Hand model of gen_mesh_traffic tied by job-by-job comparison with the real generator.", "Coq proof over regenerated facts + differential correspondence", "DESIGN.md 5.19"),
  "C16": ("Theorem C16_holds: for every overlap-free table over Z (no bound) trim succeeds, preserves decoding exactly, stays overlap-free, keeps sizes and leaves no touching same-port rules; model = code bit-exactly on exhaustive small tables + random (drift 0); certified checker chk_C16 on the real result.", "Coq proof (induction, lia) + exhaustive differential correspondence", "DESIGN.md 5.16"),
  "C17": ("Theorem C17_holds characterises constructor and re-indexing completely over Z; exhaustive-grid + random differential run ties the model to the pydantic class; any disagreement is a failing input.", "Coq proof (lia case analysis) + differential correspondence", "DESIGN.md 5.17"),
  "C18": ("Theorem C18_holds: range selection = cartesian product (first dimension outermost, inclusive asc/desc) for any node predicate and any rank, error iff a node is missing; index and tree-level selection; exhaustive differential run on arrays up to 5x5 / trees depth 3.", "Coq proof (induction) + exhaustive differential correspondence", "DESIGN.md 5.18"),
 }
 PENDING = {
- "C04": "check under construction (XY frame/bisimulation checker; DESIGN.md 5.4); not yet claimed",
- "C06": "check under construction (described_links spec vs emitted links; DESIGN.md 5.6); not yet claimed",
- "C08": "check under construction (AXI port/binding checker; DESIGN.md 5.8); not yet claimed",
- "C10": "check under construction (defect injection via CLI; DESIGN.md 5.10); not yet claimed",
  "C11": "check under construction (facts regenerated from hw/ and templates; DESIGN.md 5.11); not yet claimed",
  "C12": "check under construction (text well-formedness checker; DESIGN.md 5.12); not yet claimed",
  "C15": "check under construction (determinism / CLI views; DESIGN.md 5.15); not yet claimed",
- "C19": "check under construction (gen_jobs model; DESIGN.md 5.19); not yet claimed",
  "C20": "check under construction (manifest facts; DESIGN.md 5.20); not yet claimed",
 }
 man = {
  "version": 1,
- "setup_cmd": "cd /verif/coq && coq_makefile -f _CoqProject -o Makefile && make -j16 && make -C /verif/ocaml",
+ "setup_cmd": "cd /verif && PYTHONPATH=/repo:/verif /venv/bin/python -m harness.genfacts && cd coq && coq_makefile -f _CoqProject -o Makefile && make -j16 && make -C /verif/ocaml",
  "hooks": {"guard": "PULP_PLATFORM_FLOONOC_VERIF", "enable": "checks export PULP_PLATFORM_FLOONOC_VERIF=1; no hook was needed, so there are no guarded source commits (the fix: commits in /repo are unguarded repairs, listed in known_findings.json)",
            "baseline_off_cmd": "cd /repo && /venv/bin/python -m pytest -ra -q -p no:cacheprovider --timeout=900 --continue-on-collection-errors",
            "source_commits": [], "add_only": True},
